@@ -1,5 +1,5 @@
 import CollectionsC.Properties.C01Sized
-import CollectionsC.Proofs.ArraySized8
+import CollectionsC.Proofs.ArraySized9
 /-! # C07 (sized array part) — iterators traverse completely and in order; one-step mutation is safe
 
 Statements only.  The model iterator is the C struct (`index`, `last_removed`); the ideal cursor
@@ -115,6 +115,35 @@ theorem zip_refines (it : Iter) (a1 a2 : ArraySized) (c : Spec.SSeq.ZipCursor El
   rcases C01Sized.C07_sized_zip_add it a1 a2 c e1 e2 m i1 i2 he1 he2 hrel with ⟨h1, h2, _⟩ | ⟨h1, _, _, _, h5, h6⟩
   · exact Or.inl ⟨h1, h2⟩
   · exact Or.inr ⟨h1, h5, h6⟩
+
+/-- every zip call keeps both arrays' invariants and both live-block counters (the two arrays may sit
+on different allocators) -/
+theorem zip_keeps_inv_and_ledger (it : Iter) (a1 a2 : ArraySized) (c : Spec.SSeq.ZipCursor Elem)
+    (cmd : Spec.SSeq.ZipCmd Elem) (m : Mem) (i1 : a1.Inv) (i2 : a2.Inv)
+    (hw : ZipCmdWF a1.dataLen a2.dataLen cmd) (hrel : ZipRel it a1 a2 c) :
+    (zipStep it a1 a2 cmd m).2.2.1.Inv ∧ (zipStep it a1 a2 cmd m).2.2.2.1.Inv ∧ Bal m (zipStep it a1 a2 cmd m).2.2.2.2 :=
+  (zipStep_refines it a1 a2 c cmd m i1 i2 hw hrel).2.2
+
+/-- **zip programs**: any program of `next`/`remove`/`add`/`replace`/`index` calls on a zip iterator
+over two arrays yields the statuses, pairs and indices of the same program on the lock-step cursor
+(given the same refusals of `add`), ends representing the cursor's final state, keeps both invariants
+and both live-block counters -/
+theorem zip_program_refines (it : Iter) (a1 a2 : ArraySized) (c : Spec.SSeq.ZipCursor Elem)
+    (cmds : List (Spec.SSeq.ZipCmd Elem)) (m : Mem) (i1 : a1.Inv) (i2 : a2.Inv)
+    (hw : ∀ cmd ∈ cmds, ZipCmdWF a1.dataLen a2.dataLen cmd) (hrel : ZipRel it a1 a2 c) :
+    (zipRun it a1 a2 cmds m).1 = (c.run cmds (zipRefusals it a1 a2 cmds m)).1 ∧
+    ZipRel (zipRun it a1 a2 cmds m).2.1 (zipRun it a1 a2 cmds m).2.2.1 (zipRun it a1 a2 cmds m).2.2.2.1
+      (c.run cmds (zipRefusals it a1 a2 cmds m)).2 ∧
+    (zipRun it a1 a2 cmds m).2.2.1.Inv ∧ (zipRun it a1 a2 cmds m).2.2.2.1.Inv ∧
+    Bal m (zipRun it a1 a2 cmds m).2.2.2.2 := zipRun_refines cmds it a1 a2 c m i1 i2 hw hrel
+
+/-- when may `iter_add` be refused (the `iterRefusals` of `program_refines`): only on a full array
+whose own allocator refuses the request (`CC_ERR_ALLOC`) or which stands at its size limit
+(`CC_ERR_MAX_CAPACITY`) -/
+theorem iter_add_refused_only (it : Iter) (a : ArraySized) (c : Spec.SSeq.Cursor Elem) (e : Buf Nat) (m : Mem)
+    (h : a.Inv) (he : e.length = a.dataLen) (hrel : IterRel it a c) (hst : (a.iterAdd it e m).1 ≠ .ok) :
+    a.size = a.capacity ∧ (((a.iterAdd it e m).1 = .errAlloc ∧ (m.allocT a.triple).1 = false) ∨
+      ((a.iterAdd it e m).1 = .errMaxCapacity ∧ a.AtLimit)) := iterAdd_refused_only it a c e m h he hrel hst
 
 /-- zip iterator with the **same array on both sides** (`ar1 == ar2`, not excluded by the API):
 `zip_iter_add` inserts both elements at the cursor — the second in front of the first — and steps over
